@@ -28,7 +28,7 @@ func (a *Analyzer) Classify(rule string) {
 				c.locals[l.Val] = true
 			}
 		}
-		c.walk(l.Body.List, "")
+		c.walk(desugarContinue(l.Body.List), "")
 		l.Effects = dedup(l.Effects)
 		a.loopCarriedReads(c)
 		// collected slices: what happens to them after the loop decides
